@@ -813,6 +813,7 @@ type Frame struct {
 	forcedKey       string // commutes check: the key the next map-range Next must yield
 	commute         bool
 	loopRangeIdx    map[int]*ssa.Alloc
+	loopRangeOver   map[int]Val      // loop ordinal -> the slice value a slice-range loop iterates (evaluated once before the loop)
 	loopIterInfo    map[int]iterInfo // loop ordinal -> iterator of a map range ("itermap" in loop clauses)
 	loopIter        map[int]string   // loop ordinal -> heap key of the iterator its header advances (iterseen / iterpos without a number)
 	loopHead        map[int]*State
@@ -1509,6 +1510,18 @@ func (fr *Frame) run(st0 *State) {
 						fr.loopRangeIdx[ord] = a
 					}
 				}
+				if cmp, ok := in.(*ssa.BinOp); ok && cmp.Op == token.LSS {
+					if lc, isCall := cmp.Y.(*ssa.Call); isCall {
+						if bi, isB := lc.Call.Value.(*ssa.Builtin); isB && bi.Name() == "len" && len(lc.Call.Args) == 1 {
+							if sv, known := fr.vals[lc.Call.Args[0]]; known {
+								if fr.loopRangeOver == nil {
+									fr.loopRangeOver = map[int]Val{}
+								}
+								fr.loopRangeOver[ord] = sv // "rangeover" in the clauses of this loop: the slice being ranged
+							}
+						}
+					}
+				}
 				if nx, ok := in.(*ssa.Next); ok {
 					if it, ok := fr.iters[nx.Iter]; ok {
 						fr.loopIter[ord] = it.key
@@ -1591,6 +1604,16 @@ func (fr *Frame) run(st0 *State) {
 			if ra, ok := fr.loopRangeIdx[ord]; ok {
 				for _, in := range b.Instrs {
 					if cmp, ok := in.(*ssa.BinOp); ok && cmp.Op == token.LSS {
+						if lc, isCall := cmp.Y.(*ssa.Call); isCall {
+							if bi, isB := lc.Call.Value.(*ssa.Builtin); isB && bi.Name() == "len" && len(lc.Call.Args) == 1 {
+								if sv, known := fr.vals[lc.Call.Args[0]]; known {
+									if fr.loopRangeOver == nil {
+										fr.loopRangeOver = map[int]Val{}
+									}
+									fr.loopRangeOver[ord] = sv // "rangeover" in the clauses of this loop: the slice being ranged
+								}
+							}
+						}
 						if lenv, ok := fr.vals[cmp.Y]; ok {
 							ri := c.readCell(st, ra, types.Typ[types.Int], nil)
 							fr.assume(st, fmt.Sprintf("(and (<= (- 1) %s) (<= %s (- %s 1)))", ri, ri, lenv.T))
@@ -2275,6 +2298,31 @@ func (fr *Frame) step(st *State, in ssa.Instruction) bool {
 		}
 		a, ok := fr.addrOf(st, x.Addr)
 		if !ok {
+			if pt, isP := x.Addr.Type().Underlying().(*types.Pointer); isP {
+				if n, isN := pt.Elem().(*types.Named); isN {
+					if stt, isS := n.Underlying().(*types.Struct); isS && c.sortOf(n) != "U" && !isSyncMap(n) && !isBuilder(n) {
+						// *p = v for a pointer to a repository struct: every field heap is updated at p
+						pv, vv := fr.val(x.Addr), fr.val(x.Val)
+						fr.obligeAt(st, "safety.nil", "sel", fmt.Sprintf("(not (= %s 0))", pv.T), x.Pos())
+						name := c.sortOf(n)
+						vt := vv.T
+						if strings.ContainsAny(vt, " (") {
+							nm := c.fresh("sv", name)
+							c.defs = append(c.defs, fmt.Sprintf("(assert (= %s %s))", nm, vt))
+							vt = nm
+						}
+						for i := 0; i < stt.NumFields(); i++ {
+							key, ft := c.heapKey(n, i)
+							if !fr.writeAll {
+								fr.obligeAt(st, "frame.write", "sel", fr.writePerm(key, pv.T), x.Pos())
+							}
+							arr := c.heapGet(st, key, ft)
+							st.heap[key] = fmt.Sprintf("(store %s %s (%s.%s %s))", arr, pv.T, name, stt.Field(i).Name(), vt)
+						}
+						return true
+					}
+				}
+			}
 			c.note("%s: store through unknown address %s", fr.fname, x.Addr.Name())
 			return true
 		}
